@@ -8,8 +8,12 @@ LEAN_PROPS = "Dashu.Props.C10"
 LEAN_AUDIT = "Dashu.Audit.C10"
 USES_GEN = True
 READY = True
-GEN_PROPS = ["Dashu.Props.GenRound", "Dashu.Props.C10Est"]
-GEN_AUDIT = ["Dashu.Audit.GenRound", "Dashu.Audit.C10Est"]
+GEN_PROPS = ["Dashu.Props.GenRound", "Dashu.Props.C10Est", "Dashu.Props.C10EstNoStd"]
+GEN_AUDIT = ["Dashu.Audit.GenRound", "Dashu.Audit.C10Est", "Dashu.Audit.C10EstNoStd"]
+# Tie A, typed translator: trunc / split_at_point / fract / ceil / floor / round of float/src/round_ops.rs regenerated
+# and proved equal to `Model/Float/RoundOps.lean`
+GEN_PROPS += ["Dashu.Props.GenFloatOps"]
+GEN_AUDIT += ["Dashu.Audit.GenFloatOps"]
 
 BASES = [2, 3, 10, 16, 36]
 MODES = "ZAUDEH"
@@ -181,6 +185,17 @@ def gen_floats(rng, tier):
         if p and ndigits(B, s) > p:
             continue
         yield Case(op, [fenc(B, s, e, p, m)])
+    # long operands at the threshold of the `smaller_than_one` shortcut (`exp + digits_ub < -1`), moved by up to 4 % of
+    # the length: a digit estimate that is off by a few per cent of the digit count shows only here
+    cnt = 300 if tier == "quick" else 20000
+    for _ in range(cnt):
+        B = rng.choice([10, 10, 2, 3, 16, 36]); m = rng.choice(MODES)
+        d = rng.choice([64, 100, 100, 200, 400, 1000])
+        s = rand_sig(rng, B, d) * rng.choice([1, -1])
+        if rng.random() < 0.3:
+            s = (B ** d - 1) * rng.choice([1, -1])
+        e = -d + rng.choice([-3, -2, -1, 0, 1, 2, d // 60, d // 40, d // 25])
+        yield Case(rng.choice(ops), [fenc(B, s, e, d, m)])
     cnt = 1500 if tier == "quick" else 120000
     for _ in range(cnt):
         B = rng.choice(BASES); m = rng.choice(MODES)
@@ -190,6 +205,21 @@ def gen_floats(rng, tier):
         e = rng.choice([0, -1, 3, -d, -d - 3, 17, -40])
         np_ = rng.choice([0, 1, 1, 2, max(1, d - 1), max(1, d - 1), d, d + 1, max(1, d // 2), p, p + 3])
         yield Case("f.with_precision", [fenc(B, s, e, p, m), dec(np_)])
+    # unlimited source precision (context precision 0: no bound on the digit count) - with_precision must round
+    # it (fix ee15d7b), and every rounding method must treat `precision.saturating_sub(..)` of 0 correctly
+    cnt = 600 if tier == "quick" else 40000
+    for _ in range(cnt):
+        B = rng.choice(BASES); m = rng.choice(MODES)
+        d = rng.choice([1, 2, 3, 7, 25, 60, 130])
+        s = rand_sig(rng, B, d) * rng.choice([1, -1])
+        e = rng.choice([0, -1, 3, -d, -d - 1, -d - 2, -d - 3, -(d // 2) - 1, 17, -40])
+        op = rng.choice(["f.with_precision"] * 4 + ["f.trunc", "f.floor", "f.ceil", "f.round", "f.fract", "f.split",
+                                                     "f.to_int", "f.repr_to_int"])
+        if op == "f.with_precision":
+            np_ = rng.choice([0, 1, 2, 3, max(1, d - 1), d, d + 1, max(1, d // 2), 2 * d + 3])
+            yield Case(op, [fenc(B, s, e, 0, m), dec(np_)])
+        else:
+            yield Case(op, [fenc(B, s, e, 0, m)])
 
 def gen_rational(rng, tier):
     for d in (1, 2, 3, 4, 7, 10):
@@ -223,7 +253,9 @@ RULE = ("primitives: the complete grid integer {-2..2} x fraction {0,+-1,+-(h-1)
         "digits, |fract| within 2^-9..2^-20 of 1/2). Floats: modes x bases x p in {1,2,3,5,8,24,53,100,(0)} x exponent classes "
         "{>=0, point inside the digits, exp+digits = 0,-1,-2,-3, far below -precision} x significands {random, B^d-1, exact halves "
         "and halves+-1 of the fractional part, B/2} x signs, through trunc/floor/ceil/round/fract/split_at_point/to_int/Repr::to_int "
-        "and with_precision to {0,1,2,d-1,d,d+1,d/2,p,p+3} digits. Rationals: all n/d with d in {1,2,3,4,7,10}, |n| <= 3d+1, plus "
+        "and with_precision to {0,1,2,d-1,d,d+1,d/2,p,p+3} digits; 64..1000-digit operands with exp+digits in {-3..2, +1.6%, +2.5%, +4% of "
+        "the length} (threshold of the digit-estimate shortcut); the same ops on operands of UNLIMITED precision (context precision 0, "
+        "1..130 digits, with_precision to {0,1,2,3,d-1,d,d+1,d/2,2d+3}). Rationals: all n/d with d in {1,2,3,4,7,10}, |n| <= 3d+1, plus "
         "random 64..330-bit ones with remainders {0,1,d/2-1,d/2,d/2+1,d-1}. Non-trivial := non-zero low part / fractional digits "
         "present; distinct := distinct (op,args).")
 REFINED = ["Round::round_low_part x6 (regenerated, Props/GenRound)", "Round::round_fract", "Round::round_ratio",
@@ -233,8 +265,22 @@ REFINED = ["Round::round_low_part x6 (regenerated, Props/GenRound)", "Round::rou
            "Repr::normalize", "Context::repr_round / repr_round_ref", "FBig::with_precision",
            "FBig::trunc/floor/ceil/round/fract/split_at_point/to_int", "Repr::to_int",
            "rational Repr::trunc/floor/ceil/round/fract/split_at_point"]
-FRONTIER = ["f32 estimates digits_ub / smaller_than_one / round_fract coarse test: parameters with enclosure hypotheses "
-            "(the driver's bit-exact replica is checked against the hypotheses on every operand)"]
+FRONTIER = ["f32 estimates digits_ub / smaller_than_one / round_fract coarse test: parameters with enclosure hypotheses. Proved: the "
+            "hypotheses follow from (A) log2 n <= ub, (B) monotone f32 rounding fixing small integers, (C) two constants on the safe "
+            "side (Props/C10Est); (A) for the no_std table estimator follows from builder-nt's integer theorems with no libm "
+            "assumption (Props/C10EstNoStd); the estimate is not observable through trunc/fract/split/floor/ceil/round since "
+            "/repo 0ac7547 (theorems estimate_unobservable, estimators_agree). Still "
+            "assumed: IEEE-754 facts (B), the grid fact (G) for n >= 2^24, the numeric facts (C), log2f within one ulp (std path); "
+            "the driver's bit-exact replica is checked against the enclosure on every operand"]
+THEOREMS = ["Dashu.Props.C10." + t for t in (
+    "round_fract_follows_mode round_fract_estimate_irrelevant round_ratio_follows_mode round_fract_contract digit_len_spec "
+    "split_digits_all_paths shl_digits_all_paths shr_digits_all_paths repr_new_value_normalized repr_round_contract "
+    "with_precision_contract with_precision_digits estimate_unobservable estimators_agree trunc_correct floor_correct ceil_correct round_correct to_int_correct to_int_contract "
+    "repr_to_int_correct trunc_add_fract_eq split_at_point_eq rbig_trunc_correct rbig_floor_correct rbig_ceil_correct "
+    "rbig_round_correct rbig_trunc_add_fract").split()] + [
+    "Dashu.Props.C10Est.digits_ub_sound", "Dashu.Props.C10Est.dub_sound", "Dashu.Props.C10EstNoStd.digits_ub_nostd_sound",
+    "Dashu.Props.GenRound.zero_correct", "Dashu.Props.GenRound.away_correct", "Dashu.Props.GenRound.up_correct",
+    "Dashu.Props.GenRound.down_correct", "Dashu.Props.GenRound.half_even_correct", "Dashu.Props.GenRound.half_away_correct"]
 EXPLANATION = ("Lean theorems, for every base >= 2, every precision and all integers: the regenerated six mode tables composed with the "
                "exact half comparison (round_fract, round_ratio) return the adjustment the mode's definition names; repr_round / "
                "with_precision satisfy the rounding contract over Rat; trunc+fract = x, split_at_point = (trunc, fract) and "
